@@ -17,7 +17,8 @@ class CONSTRAINT(Enum):
 
 
 def convert_date_to_real(day, month, year):
-    if year % 4 == 0:
+    # Gregorian rule: century years are leap years only if divisible by 400
+    if year % 4 == 0 and (year % 100 != 0 or year % 400 == 0):
         days = (31, 29, 31, 30, 31, 30, 31, 31, 30, 31, 30, 31)
     else:
         days = (31, 28, 31, 30, 31, 30, 31, 31, 30, 31, 30, 31)
